@@ -53,7 +53,7 @@ class WalkIter:
             return ("err", ENOENT, p, d)              # itry!(self.follow(dent)): before the skippable() test
         if self.fl and k == "loop":
             return ("err", None, p, d)                # Error::from_loop: no io::Error inside
-        is_dir = k in ("dir", "unreadable")
+        is_dir = k in ("dir", "unreadable") or (k == "dirlink" and self.fl)      # a followed link to a directory is descended (its target is empty here)
         if is_dir:
             self.push(i)
         if is_dir and self.cf:
@@ -455,6 +455,252 @@ def explore_prune(funcs, index, enums, text):
     return res
 
 
+def explore_delete(funcs, index, enums, text, follow_mode=0):
+    """C10: -name X -delete over a model file system; X selects a symbolic subset of eight entries; -P (0) or -L (2)"""
+    import re
+    global TREE
+    saved_tree = TREE
+    # no unreadable directory here (its diagnostic would mask the status of a failed removal); a link to an (empty) directory elsewhere instead
+    TREE = [e for e in saved_tree if e[2] != "unreadable"] + [("r/s", 1, "dirlink")]
+    try:
+        return _explore_delete(funcs, index, enums, text, follow_mode)
+    finally:
+        TREE = saved_tree
+
+
+def _explore_delete(funcs, index, enums, text, follow_mode):
+    import re
+    res = {"kind": "delete/%s" % ["-P", "-H", "-L"][follow_mode], "paths": 0, "checks": 0, "violations": [], "unsupported": {}, "samples": []}
+    selectable = ["r", "r/d", "r/d/g", "r/d/g/h", "r/d/f", "r/d/k", "r/l", "r/s"]
+    sel = {p: z3.Bool("sel_" + p.replace("/", "_")) for p in selectable}
+    kinds = {q: k for q, _d, k in TREE}
+    state = {}
+
+    def wd_new(m, args):
+        state["wd"] = {"root": text_of(m, args[0])}
+        return Struct("WalkDir", [])
+
+    def wd_opt(name):
+        def f(m, args):
+            state["wd"][name] = args[1]
+            return args[0]
+        return f
+
+    def wd_into_iter(m, args):
+        w = state["wd"]
+        state["it"] = WalkIter(w.get("min_depth", 0), w.get("max_depth", 10 ** 9), bool(w.get("contents_first", False)), bool(w.get("follow_links", False)))
+        return Struct("WalkIter", [])
+
+    def wd_next(m, args):
+        v = deref(args[0])
+        if not (isinstance(v, Struct) and v.ty == "WalkIter"):
+            return models.lookup("<IntoIter as Iterator>::next", "")(m, args, "<IntoIter as Iterator>::next")
+        it = state["it"].next()
+        if it is None:
+            return NONE()
+        if it[0] == "ok":
+            p, d, k = TREE[it[1]]
+            return Some(Ok(Struct("DirEntryV", [PStr(p), d, k in ("dir", "unreadable"), k])))
+        return Some(Err(Struct("WdError", [it[1], PStr(it[2]), it[3]])))
+
+    def name_matches(m, args):
+        p = text_of(m, m.call("WalkEntry::path", [args[1]]))
+        if p not in sel:
+            return False
+        v = m.decide(sel[p])
+        state["selv"][p] = v
+        return v
+
+    def remove_file(m, args):
+        p = text_of(m, args[0])
+        state["ops"].append(("unlink", p))
+        if p not in state["exists"]:
+            return Err(Struct("IoError", [ENOENT]))
+        if kinds[p] in ("dir", "unreadable"):
+            return Err(Struct("IoError", [21]))            # EISDIR
+        state["exists"].discard(p)
+        return Ok(UNIT)
+
+    def remove_dir(m, args):
+        p = text_of(m, args[0])
+        state["ops"].append(("rmdir", p))
+        if p not in state["exists"]:
+            return Err(Struct("IoError", [ENOENT]))
+        if kinds[p] not in ("dir", "unreadable"):
+            return Err(Struct("IoError", [20]))            # ENOTDIR: rmdir() does not follow a link
+        if any(q.startswith(p + "/") for q in state["exists"]):
+            return Err(Struct("IoError", [39]))            # ENOTEMPTY
+        state["exists"].discard(p)
+        return Ok(UNIT)
+
+    def err_obj(a):
+        v = deref(a[0])
+        while isinstance(v, (Ptr, BoxObj)):
+            v = deref(v)
+        return v
+
+    def std_or_crate(name, fn_std):
+        def f(m, a):
+            v = deref(a[0])
+            if isinstance(v, Enum):
+                return m.run(m.index[name], a)
+            return fn_std(v.fields[0])
+        return f
+
+    def closure(m, raw, cargs):
+        mc = re.search(r"\{closure@[^}]*\}", raw)
+        return m.run(m.index[mc.group(0)], cargs)
+
+    def get_or_init(m, args, raw):
+        cell = deref(args[0])
+        if cell.fields[0].variant in ("Ok", "Err"):           # built by From<T>: the value itself
+            return Ptr(cell.fields, 0)
+        if cell.fields[0].variant == "None":
+            cell.fields[0] = Some(closure(m, raw, [args[1]]))
+        return Ptr(cell.fields[0].fields, 0)
+
+    def res_map(m, args, raw):
+        v = args[0]
+        want = "Err" if "map_err" in raw else "Ok"
+        if v.variant != want:
+            return v
+        mc = re.search(r"\{closure@[^}]*\}", raw)
+        if mc:
+            out = m.run(m.index[mc.group(0)], [args[1], v.fields[0]])
+        else:
+            out = m.call(re.search(r"\{([^{}]+)\}>$", raw).group(1), [v.fields[0]])
+        return Enum(v.ty, v.variant, [out])
+
+    def unwrap_or_else(m, args, raw):
+        v = args[0]
+        return v.fields[0] if v.variant in ("Some", "Ok") else closure(m, raw, [args[1]])
+
+    def opt_and_then(m, args, raw):
+        v = args[0]
+        return closure(m, raw, [args[1], v.fields[0]]) if v.variant == "Some" else NONE()
+    def is_ok_and(m, args, raw):
+        v = args[0]
+        return closure(m, raw, [args[1], v.fields[0]]) if v.variant == "Ok" else False
+    for k, f in (("OnceCell::get_or_init", get_or_init), ("Result::map", res_map), ("Result::map_err", res_map), ("Option::unwrap_or_else", unwrap_or_else),
+                 ("Option::and_then", opt_and_then), ("Result::is_ok_and", is_ok_and)):
+        models.EXACT[k] = f
+    KIND = {"dir": "d", "unreadable": "d", "file": "f", "dangling": "l", "loop": "l", "dirlink": "l"}
+
+    def de_file_type(m, a):
+        k = deref(a[0]).fields[3]
+        return Struct("StdFileType", ["d" if (k == "dirlink" and follow_mode == 2) else KIND[k]])
+    nat = {"WalkDir::new": wd_new, "WalkDir::contents_first": wd_opt("contents_first"), "WalkDir::max_depth": wd_opt("max_depth"),
+           "WalkDir::min_depth": wd_opt("min_depth"), "WalkDir::same_file_system": wd_opt("same_file_system"),
+           "WalkDir::follow_links": wd_opt("follow_links"), "WalkDir::follow_root_links": wd_opt("follow_root_links"),
+           "WalkDir::sort_by": wd_opt("sort_by"), "<WalkDir as IntoIterator>::into_iter": wd_into_iter,
+           "<IntoIter as Iterator>::next": wd_next, "IntoIter::skip_current_dir": lambda m, a: (state["it"].skip_current_dir(), UNIT)[1],
+           "DirEntry::path": lambda m, a: deref(a[0]).fields[0], "DirEntry::depth": lambda m, a: deref(a[0]).fields[1],
+           "DirEntry::into_path": lambda m, a: deref(a[0]).fields[0],
+           "DirEntry::file_type": de_file_type,
+           "DirEntry::path_is_symlink": lambda m, a: deref(a[0]).fields[3] in ("dangling", "loop", "dirlink"),
+           "FileType::is_symlink": std_or_crate("FileType::is_symlink", lambda k: k == "l"),
+           "FileType::is_dir": std_or_crate("FileType::is_dir", lambda k: k == "d"),
+           "FileType::is_file": lambda m, a: deref(a[0]).fields[0] == "f",
+           "<FileType as Into>::into": lambda m, a: m.call("<FileType as From<FileType>>::from", a),
+           "<NameMatcher as Matcher>::matches": name_matches, "NameMatcher::new": lambda m, a: Struct("NameMatcher", []),
+           "remove_file": remove_file, "remove_dir": remove_dir, "fs::remove_file": remove_file, "fs::remove_dir": remove_dir,
+           "Path::symlink_metadata": lambda m, a: Ok(Struct("MetadataV", [KIND[kinds[text_of(m, a[0])]]])),
+           "Metadata::file_type": lambda m, a: Struct("StdFileType", [deref(a[0]).fields[0]]),
+           "<impl AsRef<Path> as AsRef>::as_ref": lambda m, a: a[0], "<&Path as AsRef>::as_ref": lambda m, a: a[0], "<PathBuf as AsRef>::as_ref": lambda m, a: a[0],
+           "Path::metadata": lambda m, a: (Ok(Struct("MetadataV", [{"dir": "d", "unreadable": "d", "file": "f", "loop": "d", "dirlink": "d"}[kinds[text_of(m, a[0])]]]))
+                                           if kinds[text_of(m, a[0])] != "dangling" else Err(Struct("IoError", [ENOENT]))),
+           "<Result<Metadata, WalkError> as Into>::into": lambda m, a: Struct("Cell", [Some(a[0])]),
+           "Result::as_ref": lambda m, a: (Ok(Ptr(deref(a[0]).fields, 0)) if deref(a[0]).variant == "Ok" else Err(Ptr(deref(a[0]).fields, 0))),
+           "Result::unwrap_or": lambda m, a: a[0].fields[0] if a[0].variant == "Ok" else a[1],
+           "Error::path": lambda m, a: Some(err_obj(a).fields[1]), "Error::depth": lambda m, a: err_obj(a).fields[2],
+           "Error::io_error": lambda m, a: Some(Struct("IoError", [err_obj(a).fields[0]])) if err_obj(a).fields[0] is not None else NONE(),
+           "Error::raw_os_error": lambda m, a: Some(err_obj(a).fields[0]),
+           "Error::from_raw_os_error": lambda m, a: Struct("IoError", [a[0]]),
+           "Error::kind": lambda m, a: Enum("ErrorKind", {ENOENT: "NotFound", EACCES: "PermissionDenied"}.get(err_obj(a).fields[0], "Other"), []),
+           "<ErrorKind as PartialEq>::eq": lambda m, a: _vname(deref(a[0])) == _vname(deref(a[1])),
+           "<ErrorKind as Into>::into": lambda m, a: Struct("IoError", [0]),
+           "<Option<i32> as PartialEq>::eq": lambda m, a: (deref(a[0]).variant == deref(a[1]).variant and (deref(a[0]).variant == "None" or deref(a[0]).fields[0] == deref(a[1]).fields[0])),
+           "<impl Into<PathBuf> as Into>::into": lambda m, a: PStr(text_of(m, a[0])), "<Path as ToOwned>::to_owned": lambda m, a: PStr(text_of(m, a[0])),
+           "<Cow as PartialEq<&str>>::eq": lambda m, a: text_of(m, a[0]) == text_of(m, a[1]), "<Cow as PartialEq>::eq": lambda m, a: text_of(m, a[0]) == text_of(m, a[1]),
+           "Option::as_deref": lambda m, a: deref(a[0]),
+           "parse_str_to_newer_args": lambda m, a: NONE()}
+    nat = {k: v for k, v in nat.items() if v is not None}
+    m = Machine(funcs, index, enums, models, natives=nat, max_steps=2000000)
+    m.base_constraints = []
+    m.pending = [[]]
+    t0 = time.time()
+    while m.pending:
+        m.reset_path(m.pending.pop())
+        state.update(wd={}, it=None, selv={}, ops=[], exists={p for p, _d, _k in TREE})
+        try:
+            cfg = [m.call("<Config as Default>::default", [])]
+            r = m.call("build_top_level_matcher", [SliceRef([RStr(t) for t in ["-name", "X", "-delete"]]), Ptr(cfg, 0)])
+            if r.variant != "Ok":
+                raise Unsupported("expression rejected")
+            cfg[0].fields[CONFIG_FIELDS_of(text).index("follow")] = Enum("Follow", ["Never", "Roots", "Always"][follow_mode], [])
+            quit_cell = [False]
+            ret = m.call("process_dir", [RStr("r"), Ptr(cfg, 0), Opaque("deps"), Ptr(r.fields[0].cell, 0), Ptr(quit_cell, 0)])
+        except RustPanic as e:
+            res["violations"].append({"what": "panic: " + str(e)[:100]})
+            res["paths"] += 1
+            continue
+        except Unsupported as e:
+            res["unsupported"][str(e)[:110]] = res["unsupported"].get(str(e)[:110], 0) + 1
+            continue
+        except PathAbort:
+            continue
+        res["paths"] += 1
+        res["checks"] += 1
+        selv = state["selv"]
+        fl = follow_mode == 2
+        # reference: post-order; a selected entry is removed - a directory by rmdir and only if nothing is left in it, anything else (links included) by unlink
+        exists = {p for p, _d, _k in TREE}
+        want_ops, failed = [], [False]
+
+        def visit(i):
+            p, d, k = TREE[i]
+            if fl and k == "loop":
+                failed[0] = True            # diagnosed, not evaluated
+                return
+            if k == "dir":
+                for j in children(i):
+                    visit(j)
+            if k == "unreadable":
+                failed[0] = True            # its contents cannot be read: diagnosed
+            if selv.get(p, False):
+                if k in ("dir", "unreadable"):
+                    want_ops.append(("rmdir", p))
+                    if any(q.startswith(p + "/") for q in exists):
+                        failed[0] = True
+                    else:
+                        exists.discard(p)
+                else:                      # files and every kind of symbolic link, also one to a directory that -L descends
+                    want_ops.append(("unlink", p))
+                    exists.discard(p)
+        visit(0)
+        conf = "%s: X selects %r" % (res["kind"], sorted(p for p, v in selv.items() if v))
+        if not bool(cfg[0].fields[CONFIG_FIELDS_of(text).index("depth_first")]):
+            res["violations"].append({"what": conf + ": -delete did not switch the walk to depth-first", "config": conf})
+        if state["ops"] != want_ops:
+            res["violations"].append({"what": "%s: file-system calls %r, expected %r" % (conf, state["ops"], want_ops), "config": conf})
+        elif state["exists"] != exists:
+            res["violations"].append({"what": "%s: left %r, expected %r" % (conf, sorted(state["exists"]), sorted(exists)), "config": conf})
+        if (ret != 0) != failed[0]:
+            res["violations"].append({"what": "%s: status %r, expected %s" % (conf, ret, "non-zero" if failed[0] else "0"), "config": conf})
+        if len(res["samples"]) < 2 and len(want_ops) >= 3:
+            res["samples"].append({"config": conf, "calls": state["ops"], "status": ret})
+    res["wall_s"] = round(time.time() - t0, 2)
+    res["solver_calls"] = m.stats["solver_calls"]
+    res["functions_executed"] = sorted(m.executed)
+    return res
+
+
+def CONFIG_FIELDS_of(text):
+    import re
+    mm = re.search(r"_0 = Config \{ ([^}]*) \}", text or "")
+    return [f.split(":")[0].strip() for f in mm.group(1).split(", ")] if mm else []
+
+
 CONFIG_FIELDS = []
 
 
@@ -472,7 +718,9 @@ def set_config(m, cfg, mn, mx, df, follow):
 if __name__ == "__main__":
     text = open(sys.argv[1]).read() if len(sys.argv) > 1 else None
     funcs, index, enums, secs, text = loader.load(os.environ.get("FINDUTILS_REPO", "/repo"), text)
-    r = explore(funcs, index, enums, text) if os.environ.get("MODE") != "prune" else explore_prune(funcs, index, enums, text)
+    mode = os.environ.get("MODE", "walk")
+    r = (explore(funcs, index, enums, text) if mode == "walk" else explore_prune(funcs, index, enums, text) if mode == "prune"
+         else explore_delete(funcs, index, enums, text, 2 if mode == "deleteL" else 0))
     v = r.pop("violations")
     print(json.dumps({k: r[k] for k in ("kind", "paths", "checks", "solver_calls", "wall_s", "unsupported", "samples")})[:900])
     print(len(v), "violations")
